@@ -60,7 +60,7 @@ theorem add_spec (hin : EnvIn (X ++ Y) IfmaField.pre_add) :
   rw [e] at h
   exact h
 
-/-- `x.negate_lazy()` (`16p − x`): lanes `≤` the lanes of `16p` ↦ lanes `< 2^56`, element-wise negation -/
+/-- `x.negate_lazy()` (`32p − x`): lanes `≤` the lanes of `32p` (in particular: any product or square of reduced vectors, `Dalek.Props.C11.Ifma.mul_post_le32p`) ↦ lanes `< 2^56`, element-wise negation -/
 theorem negate_lazy_spec (hin : EnvIn X IfmaField.pre_negate_lazy) :
     ∃ out, Dalek.Gen.IfmaField.negate_lazy.evalC X = some out ∧ Dalek.Gen.IfmaField.negate_lazy.evalW X = out ∧
       EnvIn out (rep 20 (ub (2 ^ 56 - 1))) ∧
@@ -72,10 +72,10 @@ theorem negate_lazy_spec (hin : EnvIn X IfmaField.pre_negate_lazy) :
   rw [e] at h
   exact h
 
-/-- `x.diff_sum()`: lanes `≤` the lanes of `16p` ↦ lanes `< 2^56`, `(A,B,C,D) ↦ (B − A, B + A, D − C, D + C)` -/
+/-- `x.diff_sum()`: lanes `≤` the lanes of `32p` ↦ lanes `< 2^57`, `(A,B,C,D) ↦ (B − A, B + A, D − C, D + C)` -/
 theorem diff_sum_spec (hin : EnvIn X IfmaField.pre_diff_sum) :
     ∃ out, Dalek.Gen.IfmaField.diff_sum.evalC X = some out ∧ Dalek.Gen.IfmaField.diff_sum.evalW X = out ∧
-      EnvIn out (rep 20 (ub (2 ^ 56 - 1))) ∧
+      EnvIn out (rep 20 (ub (2 ^ 57 - 1))) ∧
       ∀ k : Lane, vecVal51 k out = k.sel (vecVal51 .B X - vecVal51 .A X) (vecVal51 .B X + vecVal51 .A X) (vecVal51 .D X - vecVal51 .C X) (vecVal51 .D X + vecVal51 .C X) := by
   obtain ⟨out, hC, hW, hpost, hZ⟩ := Prog.norm_sound _ _ _ _ diff_sum_norm_ok _ hin
   refine ⟨out, hC, hW, EnvIn_of_itvsLe hpost (by decide +kernel), fun k => ?_⟩
